@@ -18,13 +18,25 @@ def cases(tier):
                 for (x, y) in ((a, b), (b, a)) if a != b else ((a, b),):
                     out.append(Case('c13.%s.%s_%s.n%d' % (name, x, y, n0), 'sched.c', {'VF_CONT': cont, 'VF_OP1': OPS[x], 'VF_OP2': OPS[y], 'VF_N0': n0}, unwind=n0 + 6, checks='func',
                                     timeout=600, funcs=FUNCS[cont], desc='%s: T1=%s overlapped by T2=%s at a solver-chosen scheduling point, %d initial elements; arguments symbolic' % (name, x, y, n0)))
+    MOPS = {'PUT': 1, 'GET': 2, 'REMOVE': 3, 'SIZE': 4, 'CLEAR': 5}
+    MPAIRS = [('PUT', 'GET'), ('PUT', 'PUT'), ('PUT', 'REMOVE'), ('PUT', 'SIZE'), ('PUT', 'CLEAR'), ('REMOVE', 'GET'), ('REMOVE', 'REMOVE'), ('CLEAR', 'GET')]
+    MF = {3: ['qlisttbl_put', 'qlisttbl_putstr', 'qlisttbl_getstr', 'qlisttbl_remove', 'qlisttbl_getnext', 'qlisttbl_clear', 'qlisttbl_lock', 'qlisttbl_unlock'],
+          4: ['qhashtbl_put', 'qhashtbl_getstr', 'qhashtbl_remove', 'qhashtbl_clear', 'qhashtbl_lock', 'qhashtbl_unlock'],
+          5: ['qtreetbl_putobj', 'qtreetbl_getobj', 'qtreetbl_removeobj', 'qtreetbl_clear', 'qtreetbl_lock', 'qtreetbl_unlock']}
+    for cont, name in ((3, 'listtbl'), (4, 'hashtbl'), (5, 'tree')):
+        for (a, b) in MPAIRS:
+            for n0 in (1, 2):
+                for (x, y) in ((a, b), (b, a)) if a != b else ((a, b),):
+                    out.append(Case('c13.%s.%s_%s.n%d' % (name, x, y, n0), 'schedmap.c', {'VF_CONT': cont, 'VF_OP1': MOPS[x], 'VF_OP2': MOPS[y], 'VF_N0': n0}, unwind=8,
+                                    unwindset={'put_obj': 4, 'remove_obj': 4, 'remove_min': 4, 'free_objs': 4}, checks='func', timeout=600, funcs=MF[cont],
+                                    desc='%s: T1=%s overlapped by T2=%s at a solver-chosen scheduling point, %d initial keys; keys/values symbolic' % (name, x, y, n0)))
     return out
 
 
 def meta(tier):
     return {'level': 'model_checking',
-            'bounds': 'two logical threads, one call each; vector and list with 0..%d initial one-byte elements; T2 injected at any outermost lock acquisition/release of T1 (or before/after); indexes over the whole int range' % (2 if tier == 'quick' else 3),
-            'outside': ['more than two threads / more than one call per thread', 'tree table, hash table and list table (their public operations hold the lock from the first to the last access to shared state: not encoded here)',
+            'bounds': 'two logical threads, one call each; vector and list with 0..%d initial one-byte elements, list table (UNIQUE), hash table (range 2) and tree table with 1..2 initial keys out of {a,b}; T2 injected at any outermost lock acquisition/release of T1 (or before/after); indexes over the whole int range' % (2 if tier == 'quick' else 3),
+            'outside': ['more than two threads / more than one call per thread', 'map containers: only putstr/getstr(copy)/remove/size/clear over two keys; walks under the container lock are not encoded',
                         'randomised long stress schedules on a race-detecting build; data races without an observable non-linearizable outcome; memory-model effects', 'interleavings INSIDE a critical section (excluded by mutual exclusion, which is assumed from pthread)'],
             'stubs': ['lock model of stubs.h with scheduling hook (trylock always succeeds for the running logical thread; T2 runs only when T1 holds no lock)', 'allocator shim (never fails)'],
             'assumptions': ['pthread mutual exclusion works: no second thread runs inside another thread\'s critical section', 'the pre-state is built through the public API (n appends)'],
